@@ -704,7 +704,7 @@ PROPS = {
     'C12': {
         'queries': c12_queries,
         'level': 'model_checking',
-        'outside': ['strings longer than the stated bounds'],
+        'outside': ['local parts longer than 24 / 48 (+63-66) bytes; addresses longer than 9 / 12 (16) bytes in the four-mode product'],
     },
     'C16': {
         'queries': c16_queries,
@@ -728,7 +728,7 @@ PROPS = {
     'C09': {
         'queries': c09_queries,
         'level': 'model_checking',
-        'outside': ['domains longer than max_len outside the structured family'],
+        'outside': ['domains longer than 13/16 bytes outside the concrete-shape families (leading labels of the listed lengths)'],
         'assumptions': ['reference ref/ref_domain.h (ref_special) is the reading of the property text'],
     },
     'C11': {
@@ -740,13 +740,13 @@ PROPS = {
     'C05': {
         'queries': c05_queries,
         'level': 'model_checking',
-        'outside': ['literal contents longer than max_len', 'bytes after the end pointer other than "]" (no caller passes them)'],
+        'outside': ['full-alphabet literal contents longer than 16/32 bytes, address-alphabet contents longer than 20/22 (maximum textual length is 45)', 'bytes after the end pointer other than "]" (no caller passes them)'],
         'assumptions': ['reference recognisers ref/ref_ip.h: U = RFC 4291 text form, L = RFC 5321 section 4.1.3'],
     },
     'C04': {
         'queries': c04_queries,
         'level': 'model_checking',
-        'outside': ['arbitrary content on strings longer than max_len (only the structured family goes to 262 bytes)',
+        'outside': ['lengths not listed per query (quick: 25-62, 68-239 only through the structured family; thorough: every length to 72 and the listed ones to 256)',
                     'mode 6531: the IDNA conversion itself (libidn2 is a binary); the pipeline around it is C10/C07'],
         'assumptions': ['reference recogniser ref/ref_domain.h is the reading of the property text',
                         'the domain range ends at the terminating NUL (as in every call made by the library)'],
@@ -754,7 +754,7 @@ PROPS = {
     'C03': {
         'queries': c03_queries,
         'level': 'model_checking',
-        'outside': ['local parts longer than max_len; the decoder itself is covered completely (all windows of 0-4 bytes)',
+        'outside': ['6531 local parts longer than 12/20 arbitrary bytes (68 structured ASCII); the decoder itself is covered completely (all windows of 0-4 bytes)',
                     'lengths >= 2^31 (utf8_decode_init takes int)'],
         'assumptions': ['reference recogniser ref/ref_local.h (Unicode Table 3-7 + RFC 5321 grammar) is the reading of the property text'],
     },
@@ -777,13 +777,13 @@ PROPS = {
     'C01': {
         'queries': c01_queries,
         'level': 'model_checking',
-        'outside': ['addresses longer than max_address_len'],
+        'outside': ['address lengths other than <= 24/40 and the exact lengths listed per query (65-67 / 64-80); glue check: lengths above 24 / 68, literals above 12 bytes'],
         'assumptions': ['leaf validators behave as arbitrary functions of their (start,end) range with the documented result range'],
     },
     'C02': {
         'queries': c02_queries,
         'level': 'model_checking',
-        'outside': ['local parts longer than the stated max_len'],
+        'outside': ['lengths not listed per query: 5321/5322 beyond 72 bytes, 822 beyond 48 arbitrary bytes (68 structured)'],
         'assumptions': ['reference recogniser ref/ref_local.h is the reading of the property text'],
     },
 }
